@@ -466,7 +466,7 @@ func (v *Verifier) defaultHandlerContract(key, label, clause string) {
 		v.Errors = append(v.Errors, "default handler contract: "+err.Error())
 		return
 	}
-	fc.Clauses = append(fc.Clauses, &Clause{Kind: "ensures", Label: label, Props: []string{v.Prop}, Text: clause, Expr: n})
+	fc.Clauses = append(fc.Clauses, &Clause{Kind: "ensures", Label: label, Props: []string{v.Prop}, Text: clause, Expr: n, Default: true})
 	v.VerifyFunc(fc)
 }
 
@@ -513,7 +513,7 @@ func (v *Verifier) defaultSecretsContract(fn *ssa.Function, callers map[*ssa.Fun
 			fc = &FuncContract{Pkg: rel, Key: key, File: "(default C17 contract)", Options: map[string]string{}}
 			v.CS.Funcs[key] = fc
 		}
-		fc.Clauses = append(fc.Clauses, &Clause{Kind: "ensures", Label: "no_secret_leak", Props: []string{v.Prop}, Text: "secrets_clean", Expr: n})
+		fc.Clauses = append(fc.Clauses, &Clause{Kind: "ensures", Label: "no_secret_leak", Props: []string{v.Prop}, Text: "secrets_clean", Expr: n, Default: true})
 		v.VerifyFunc(fc)
 	}
 	return true
@@ -649,7 +649,7 @@ func (v *Verifier) defaultRedirectContract(fn *ssa.Function, callers map[*ssa.Fu
 		fc = &FuncContract{Pkg: rel, Key: key, File: "(default C15 contract)", Options: map[string]string{}}
 		v.CS.Funcs[key] = fc
 	}
-	fc.Clauses = append(fc.Clauses, &Clause{Kind: "ensures", Label: "target_from_configuration", Props: []string{v.Prop}, Text: "each Redirect(?ro) => query_only(ro.RedirectPath)", Expr: n})
+	fc.Clauses = append(fc.Clauses, &Clause{Kind: "ensures", Label: "target_from_configuration", Props: []string{v.Prop}, Text: "each Redirect(?ro) => query_only(ro.RedirectPath)", Expr: n, Default: true})
 	v.VerifyFunc(fc)
 	return true
 }
